@@ -5,7 +5,8 @@ P="$(readlink -f "$1")"; shift
 cd /repo || exit 2
 if ! git diff --quiet; then echo "/repo has uncommitted changes"; exit 2; fi
 if ! git apply "$P"; then echo "PATCH-DOES-NOT-APPLY $P"; exit 2; fi
-trap 'git -C /repo checkout -- . ; git -C /repo clean -fdq' EXIT
+export VERIF_OUT_DIR="$(mktemp -d /tmp/selftest-out.XXXXXX)"   # evidence / replays of a patched tree never land in /verif
+trap 'git -C /repo checkout -- . ; git -C /repo clean -fdq; rm -rf "$VERIF_OUT_DIR"' EXIT
 for ID in "$@"; do
   OUT=$(cd /verif && VERIF_SEED=${VERIF_SEED:-1} bin/check "$ID" "${TIER:-quick}" 2>&1); RC=$?
   SIGS=$(echo "$OUT" | grep -E '^  [A-Za-z0-9:_-]+' | cut -c1-150 | head -4 | tr '\n' ';')
